@@ -51,6 +51,10 @@ let () =
   Drv_plain.register_plain 4 ttml_dec ttml_enc
     (fun d -> match xml_parse d with Some t -> doc_time_simple t | None -> false);
   register "ttmlopt" (fun r -> let d = rtdoc r in pint 0; ptdoc (ttml_optimize d));
+  register "ttmlrenderex" (fun r ->
+    let t = rxnode r in
+    pint (if t = render_ttml ex_rendering ex_model then 1 else 0);
+    ptdoc (denote_ttml ex_rendering ex_model));
   register "ttmlconst" (fun r -> pint (rint r));
   register "ttmltime" (fun r ->
     let s = rstr r in let fr = rz r in let tr = rz r in
